@@ -722,9 +722,11 @@ private:
 	// cst is either linear_constraint or reference_constraint
         auto cst = *(csts.begin());
         env.set(x, typename BoolToCstEnv::mapped_type(cst.negate()));
-      } else if (csts.size() > 1) { 
-	// we do not negate multiple conjunctions because it would
-	// become a disjunction so we give up
+      } else {
+	// Either nothing is remembered for y or we do not negate
+	// multiple conjunctions because it would become a
+	// disjunction. In both cases, we give up and forget what was
+	// remembered for the old value of x.
         env -= x;
       }
     }
@@ -911,8 +913,10 @@ private:
 			      const linear_constraint_t &cst) {
     if (cst.is_tautology()) {
       m_product.first().set_bool(x, boolean_value::get_true());
+      m_bool_to_lincsts -= x;
     } else if (cst.is_contradiction()) {
       m_product.first().set_bool(x, boolean_value::get_false());	
+      m_bool_to_lincsts -= x;
     } else {
       if (m_product.second().entails(cst)) {
 	// -- definitely true
@@ -932,6 +936,7 @@ private:
       }
       m_bool_to_lincsts.set(x, lincst_set_t(cst));
     }
+    m_bool_to_refcsts -= x;
     m_bool_to_bools -= x;
   }
 
@@ -942,8 +947,10 @@ private:
 			      const reference_constraint_t &cst) {
     if (cst.is_tautology()) {
       m_product.first().set_bool(x, boolean_value::get_true());
+      m_bool_to_refcsts -= x;
     } else if (cst.is_contradiction()) {
       m_product.first().set_bool(x, boolean_value::get_false());	
+      m_bool_to_refcsts -= x;
     } else {
       Dom inv1(m_product.second());
       inv1.ref_assume(cst);
@@ -968,6 +975,7 @@ private:
       }
       m_bool_to_refcsts.set(x, refcst_set_t(cst));
     }
+    m_bool_to_lincsts -= x;
     m_bool_to_bools -= x;
 
   }
@@ -1599,6 +1607,10 @@ public:
       } else {
         m_product.first().set_bool(dst, boolean_value::top());
       }
+      // forget what was remembered for the old value of dst
+      m_bool_to_lincsts -= dst;
+      m_bool_to_refcsts -= dst;
+      m_bool_to_bools -= dst;
     } else if ((op == OP_ZEXT || op == OP_SEXT) &&
                (get_bitwidth(src) == 1 && get_bitwidth(dst) > 1)) {
       // -- bool to int:
